@@ -23,38 +23,53 @@ CAP = 64                     # iteration cap of the code under test (counts func
 
 EXPLANATION = (
     "The real brentsroot and brentsrootvec are executed on symbolic reals: bracket end a, signed width w != 0 (b = a + w, either "
-    "order), tolerance tol in [4*eps64, 1e-3] (symbolic, or None = the code's default), and a test function whose parameters are "
-    "solver variables - linear s*(x - r) with s from a scale sweep 1e-6..1e9 of either sign (and one instance with s symbolic in "
-    "that range) and root r = a + rho*w inside / outside / at an end of the bracket; jump functions (-u for x < r, +v otherwise, "
-    "u, v > 0 symbolic with 1e-6 <= u+v <= 1e9: the real-arithmetic model of a function steeper than tol can resolve); two-root "
-    "quadratics s*(x-r1)*(x-r2) in the thorough tier.  Every `if`/`while`/mask of the solver forks; all feasible paths under the "
-    "unwinding assumption |w| <= 2^k*tol are enumerated and on each path z3 is asked for parameter values violating: point in "
-    "the closed bracket (or no success claimed); f(a)*f(b) < 0 => point within tol of the sign change; f(a)*f(b) < 0 => success "
-    "reported; success => |f(x)| <= tol or sign change within tol; no sign change in the bracket and no end-point root => no "
-    "success; loop left by convergence, not by the 64-evaluation cap (unwinding assertion); vector solver (1..3 components, list of "
-    "callables with per-component parameters, shared or per-component brackets) == scalar solver per component.  A separate "
-    "floating-point lemma is decided by z3's QF_FP theory (bit-precise IEEE): two adjacent floats bracketing a sign change of "
-    "fl(s*x - d) with both residuals above tol = 4*eps(dtype) exist, i.e. the success test of the return statement cannot be met "
-    "by any representable point; its witness is replayed on the real code in that dtype and transported to float64.")
+    "order), tolerance tol symbolic in [4*eps64, 1e-3] (also: None = the code's default, and [eps64, 4*eps64) which the code "
+    "raises to its floor), and a test function whose parameters are solver variables - linear s*(x - r) with s from the scale "
+    "sweep +-{1e-6, 1e-3, 1, 10, 1e3, 1e9} (and instances with s symbolic in that range) and root r = a + rho*w inside / outside / "
+    "at an end point of the bracket; jump functions (-u for x < r, +v otherwise, u, v > 0 symbolic, 1e-6 <= u+v <= 1e9: the "
+    "real-arithmetic model of a function steeper than tol can resolve), evaluated with a forking `if` and, in separate "
+    "instances, as an if-then-else term; two-root quadratics s*(x-r1)*(x-r2) in the thorough tier.  Every `if`/`while`/mask of "
+    "the solver forks; all feasible paths under the unwinding assumption |w| <= 2^k*tol are enumerated and on each path z3 is "
+    "asked for parameter values violating: (1) point in the closed bracket, or no success claimed; (2) f(a)*f(b) < 0 => point in "
+    "the bracket and within tol of a sign change of f, and success reported; (3) success => |f(x)| <= tol or a sign change "
+    "within tol of x; (4) no sign change in the closed bracket and |f| > tol at both ends => no success (and, separately, the "
+    "literal reading f(a)*f(b) > 0 => no success); the loop is left by convergence, not by the 64-evaluation cap (unwinding "
+    "assertion); (5) vector solver (1..3 components, list of callables with per-component parameters, shared or per-component "
+    "brackets) returns the same point and the same flag as the scalar solver per component; both return statements (plain and "
+    "return_interval) are exercised.  Known findings: (2)-success and the literal (4) fail because success is the absolute test "
+    "|f(b)| <= tol (key c14.absolute_residual_success: the region admits only 'point correct, flag wrong'); (5) fails only on "
+    "brackets without sign change, where the scalar solver answers (inf, False) and the vector solver an end point (key "
+    "c14.vec_unbracketed_result); under f(a)*f(b) < 0 agreement is discharged on every path.  Separate floating-point lemma, "
+    "decided by z3's QF_FP theory (bit-precise IEEE, round-to-nearest-even): 'for all floats s, d (|s| <= 1000) and adjacent "
+    "floats x0 < x1 in (1/2, 2) with fl(s*x0 - d) < 0 < fl(s*x1 - d), one of the two residuals is <= tol = 4*eps(dtype)' - z3 "
+    "returns a counterexample (no representable point can meet the success test although the sign change is bracketed to the "
+    "last bit); the witness is replayed on the real brentsroot in that dtype and transported to float64 on the real code.")
 ASSUMPTIONS = [
     "real arithmetic (IEEE rounding only in the separate QF_FP lemma); every float constant enters with its exact binary value",
-    "unwinding assumption |b - a| <= 2^k * tol (k per instance, see bounds); the check 'terminates before the iteration cap' "
-    "fails if the 64-evaluation cap is reached under it",
-    "test functions restricted to the families linear / jump / two-root quadratic with the stated parameter ranges; "
-    "|a| <= 1 (the algorithm is translation invariant over R; the bound keeps float replays meaningful); tol in [4*eps64, 1e-3]",
-    "jump family evaluated with a python `if` on x < r (forks the path at each evaluation; equivalent to an if-then-else term)",
-    "'root at an end point' in the no-success clause is read as |f(end)| <= tol (consistent with the success clause); the "
-    "literal reading f(end) != 0 is checked separately (c14.no_sign_change_no_success_literal)",
+    "unwinding assumption |b - a| <= 2^k * tol (k per instance, see bounds / instance ids); the check 'terminates before the "
+    "iteration cap' fails if the 64-evaluation cap is reached under it",
+    "test functions restricted to the families linear / jump / two-root quadratic with the stated parameter ranges "
+    "(root position rho = (r - a)/(b - a) in [-4, 5]); |a| <= 1 (keeps float replays meaningful); tol in [4*eps64, 1e-3]",
+    "a tolerance below 4*eps64 is raised by the code to that floor: the clauses are then asserted for the floor (the effective tolerance)",
+    "'root at an end point' in clause (4) is read as |f(end)| <= tol (consistent with clause (3)); the literal reading "
+    "f(a)*f(b) > 0 is checked separately (c14.no_sign_change_no_success_literal) and hits the known finding for flat functions",
+    "a 'sign change of f' is the root r of the linear family, the jump position r, either root of the quadratic (r1 != r2)",
+    "vector instances marked oracle=False assert only the agreement with the scalar solver (clauses (1)-(4) are asserted on the "
+    "scalar result in the scalar instances and on the vector result in the remaining vector instances)",
 ]
 BOUNDS = {
-    "quick": dict(halvings_k="4 (linear scalar), 3 (jump scalar), 2 (vector, 2 components), 1 (3 components)", vector_lengths="1..3",
-                  scales="+-1e-6, 1e-3, 1, 10, 1e3, 1e9 concrete; one instance symbolic in [1e-6, 1e9]", fp_lemma="float16"),
-    "thorough": dict(halvings_k="8 (linear scalar), 5 (jump scalar), 3 (vector)", vector_lengths="1..3", quadratics="k = 2",
-                     scales="as quick", fp_lemma="float16, float32"),
+    "quick": dict(halvings_k="scalar: 4 (linear), 3 (jump); vector: 3/2 (1 component), 2 (2 components linear), 1 (2 components jump, "
+                             "3 components linear), 0 (per-component brackets jump, 3 components jump)",
+                  vector_lengths="1..3", scales="+-{1e-6, 1e-3, 1, 10, 1e3, 1e9} concrete; symbolic in [1e-6, 1e9] of either sign",
+                  fp_lemma="float16, float32 (60 s each)"),
+    "thorough": dict(halvings_k="scalar: 8 (linear), 7 (jump), 1 (quadratic); vector: 8/4 (1 component), 3 (2 components linear), "
+                                "2 (2 components jump, 3 components linear), 1 (per-component brackets jump), 0 (3 components jump)",
+                     vector_lengths="1..3", scales="as quick; quadratics 1, -1e3", fp_lemma="float16, float32, float64"),
 }
-OUTSIDE = ["general continuous functions (only the families above)", "float64 bit-level behaviour of the full loop "
-           "(only the acceptance predicate of the return statement is treated bit-precisely, float16/float32)",
-           "vector lengths 4..16", "callable (non-list) form of brentsrootvec with accepts_mask"]
+OUTSIDE = ["general continuous functions (only the families above); quadratic instances may end inconclusive (quotient terms)",
+           "float64 bit-level behaviour of the full loop (only the acceptance predicate of the return statement is treated "
+           "bit-precisely)", "vector lengths 4..16", "callable (non-list) form of brentsrootvec and accepts_mask",
+           "brackets wider than 2^k * tol (more than k halvings)", "NaN/inf function values or bracket ends; zero-width brackets"]
 
 SCALES = [1e-6, 1e-3, 1.0, 10.0, 1e3, 1e9]
 
@@ -73,10 +88,12 @@ def _short(v):
     return {"inside": "in", "outside": "out", "notinside": "nin", "end": "end", "any": "any"}[v]
 
 
-def _vec(fam, roots, k, bounds="shared", wsign=None, budget=None, oracle=True, interval=True):
+def _vec(fam, roots, k, bounds="shared", wsign=None, budget=None, oracle=True, interval=True, half=None):
     n = len(roots)
     ws = "" if wsign is None else "-w" + "".join("p" if x > 0 else "m" for x in (wsign if isinstance(wsign, list) else [wsign]))
-    return dict(id="vec%d-%s-%s-%s-k%d%s" % (n, fam, bounds, "_".join(_short(r) for r in roots), k, ws), family=fam,
+    if half:
+        ws += "-" + half
+    return dict(id="vec%d-%s-%s-%s-k%d%s" % (n, fam, bounds, "_".join(_short(r) for r in roots), k, ws), family=fam, half=half,
                 scale="sym" if fam == "jump" else [1e3, -1.0, 1e-3][:n], root=list(roots), k=k, tol="sym", nvec=n, bounds=bounds,
                 wsign=wsign, oracle=oracle, interval=interval, budget=budget)
 
@@ -126,13 +143,15 @@ def instances(tier):
         out.append(_vec("jump", ["inside", "inside", "outside"], 0, wsign=1, budget=dict(bq, wall_s=80), oracle=False))
     else:
         out.append(_vec("linear", ["any"], 8, budget=bq, interval=False))
-        out.append(_vec("jump", ["any"], 5, budget=bq, interval=False))
+        out.append(_vec("jump", ["any"], 4, budget=bq, interval=False))
         out.append(_vec("linear", ["any", "any"], 3, budget=bq))
         out.append(_vec("linear", ["any", "any"], 3, bounds="percomp", budget=bq))
         for ws in (1, -1):
-            out.append(_vec("jump", ["inside", "inside"], 2, wsign=ws, budget=bq, oracle=False))
+            for half in ("lo", "hi"):       # component 0: root in the first / second half of the bracket
+                out.append(_vec("jump", ["inside", "inside"], 2, wsign=ws, budget=bq, oracle=False, half=half))
             out.append(_vec("jump", ["inside", "notinside"], 2, wsign=ws, budget=bq))
-            out.append(_vec("linear", ["any", "any", "any"], 2, wsign=ws, budget=bq))
+            for r0 in ("inside", "outside", "end"):
+                out.append(_vec("linear", [r0, "any", "any"], 2, wsign=ws, budget=bq))
             out.append(_vec("jump", ["inside", "inside", "inside"], 0, wsign=ws, budget=bq, oracle=False))
             out.append(_vec("jump", ["inside", "inside", "notinside"], 0, wsign=ws, budget=bq))
         for ws in ([1, 1], [1, -1], [-1, 1], [-1, -1]):
@@ -149,10 +168,22 @@ def instances(tier):
     for dt in (("float16", "float32") if q else ("float16", "float32", "float64")):
         t = 60 if q else 700
         out.append(dict(id="fp-lemma-%s" % dt, family="fp", dtype=dt, timeout_s=t, budget=dict(wall_s=t + 30, max_paths=4)))
-    # the pool starts instances in list order: expensive ones first
-    rank = {"quadratic": 0, "fp": 1, "jump": 2, "linear": 3}
-    out.sort(key=lambda i: (0 if i.get("nvec") else 1, rank[i["family"]]))
+    out.sort(key=_cost, reverse=True)      # the pool starts instances in list order: expensive ones first
     return out
+
+
+def _cost(i):
+    """rough single-core seconds (measured), only used to order the work list"""
+    fam, n, k = i["family"], i.get("nvec", 0), i.get("k", 0)
+    if fam == "fp":
+        return 40.0
+    if fam == "quadratic":
+        return 400.0
+    if n == 0:
+        return 3.0 if fam == "linear" else 20.0 * 2.2 ** (k - 3)
+    if fam == "linear":
+        return {1: 5.0, 2: 40.0, 3: 100.0}[n] * (2.0 if "any" in i["root"] else 1.0)
+    return {1: 0.3, 2: 8.0, 3: 100.0}[n] * 6.0 ** k * (0.5 if not i.get("oracle", True) else 1.0)
 
 
 # ----------------------------------------------------------------------------------------------------------------------
@@ -492,6 +523,9 @@ def _vector(c, inst, n, tol_arg, tol):
             a, w = _bracket(c, inst, tol, "" if i == 0 else "_%d" % i, i)
         brs.append((a, w))
         fns.append(_make_fn(c, inst, a, w, idx=i, scale=scales[i], root=roots[i]))
+        if i == 0 and inst.get("half"):
+            rho0 = c.real("rho")
+            c.assume(rho0 < 0.5 if inst["half"] == "lo" else rho0 >= 0.5)
     if shared:
         lb, ub = brs[0][0], brs[0][0] + brs[0][1]
         if not c.symbolic:
